@@ -1,8 +1,8 @@
 (* C05 - Clock (C) and don't-care (X) inputs expand into the documented row sequences.
    SPEC: ExpandSpec.expand_spec.  MODEL: Iter.expand_x / expand_c / prepare_cache + pop.
    Property theorems only; proofs in proofs/ExpandProof.v. *)
-From DTR Require Import Prelude I64 Ast Parser Bind Eval Stmt Iter ExpandSpec.
-From DTR.proofs Require Import ExpandProof.
+From DTR Require Import Prelude I64 Ast FramedMap Lexer Parser Bind Eval Stmt Iter Static ExpandSpec.
+From DTR.proofs Require Import ExpandProof IterLogProof RunRefineE IterLogProofE VectorProof OutputsRunProof VarsRunProof LinesRunProof ExpansionRunProof.
 Local Open Scope nat_scope.
 
 (* For EVERY bound test and EVERY source row (any width, any number and position of X, C, Z,
@@ -39,6 +39,98 @@ Theorem C05_expand_x_terminates : forall (tc : testcase) (row : dentries) (rest 
   expand_x tc (S (length (de_entries row))) (row :: rest) <> OOF.
 Proof. exact expand_x_never_oof. Qed.
 
+(* RUN LEVEL, through error items: the calls of next() that belong to one source row (the call that fetched it from the statement iterator and the calls served from the expansion cache after it) hand to the driver exactly the documented sequence for that row - spec_rows: every assignment of its X entries, leftmost fastest, 0 before 1, each with its clock triple - each vector once, in that order, WHATEVER becomes of the calls (a row, a failed call, a refused answer, a failing declared signal); a run that is cut short has sent a prefix *)
+Theorem C05_group_is_the_expansion :
+  forall (G : gen) (DE : Type) (D : driver DE) (w_default : bool) (tc : testcase) 
+  (fuel n : nat) (st0 : istate) (pre : list (step DE)) (s : step DE) (mid post : list (step DE))
+  (w : list dentry) (l : N) (it' : siter) (c' : ctx),
+  try_new DE D tc = NewOk DE st0 ->
+  steps_e G DE D w_default tc fuel n st0 = pre ++ s :: mid ++ post ->
+  refill_call (step_pre DE s) = true ->
+  Forall (fun x : step DE => refill_call (step_pre DE x) = false) mid ->
+  snext G fuel (i_iter (step_pre DE s)) (i_ctx (step_pre DE s)) =
+  NYield ctx xfail (list dentry) w l it' c' ->
+  exists (ers : list evaluated_row) (rows rest : list dentries),
+  spec_rows tc (source_row w l) = rows ++ rest /\
+  map (fun x : step DE => handed G tc fuel (step_pre DE x)) (s :: mid) = map Some ers /\
+  evaluated_seq tc (i_prev (step_pre DE s)) rows ers /\
+  i_log (end_state DE (step_pre DE s) (s :: mid)) =
+  i_log (step_pre DE s) ++ map (call_of w_default) ers /\
+  pending tc (end_state DE (step_pre DE s) (s :: mid)) = rest /\
+  (rest = [] <-> refill_call (end_state DE (step_pre DE s) (s :: mid)) = true) /\
+  (forall (y : step DE) (post' : list (step DE)),
+  post = y :: post' -> step_pre DE y = end_state DE (step_pre DE s) (s :: mid)).
+Proof. exact group_is_the_expansion. Qed.
+
+(* which of these calls read the outputs: exactly the third of each clock triple and every row without C (the first two of a triple are write-only), and every row of the group carries the source row's line *)
+Theorem C05_calls_of_a_group :
+  forall (G : gen) (DE : Type) (D : driver DE) (w_default : bool) (tc : testcase) 
+  (fuel n : nat) (st0 : istate) (pre : list (step DE)) (s : step DE) (mid post : list (step DE))
+  (w : list dentry) (l : N) (it' : siter) (c' : ctx),
+  steps_e G DE D w_default tc fuel n st0 = pre ++ s :: mid ++ post ->
+  refill_call (step_pre DE s) = true ->
+  Forall (fun x : step DE => refill_call (step_pre DE x) = false) mid ->
+  snext G fuel (i_iter (step_pre DE s)) (i_ctx (step_pre DE s)) =
+  NYield ctx xfail (list dentry) w l it' c' ->
+  exists (ers : list evaluated_row) (calls : list call),
+  map (fun x : step DE => handed G tc fuel (step_pre DE x)) (s :: mid) = map Some ers /\
+  i_log (end_state DE (step_pre DE s) (s :: mid)) = i_log (step_pre DE s) ++ calls /\
+  length calls = length (s :: mid) /\
+  map snd calls = map er_inputs ers /\
+  map er_update_output ers = firstn (length (s :: mid)) (group_flags tc w) /\
+  map fst calls = map (flag_kind w_default) (firstn (length (s :: mid)) (group_flags tc w)) /\
+  Forall (fun er : evaluated_row => er_line er = l) ers.
+Proof. exact calls_of_a_group. Qed.
+
+Theorem C05_which_calls_read :
+  forall (tc : testcase) (w : list dentry) (i : nat) (b : bool),
+  nth_error (group_flags tc w) i = Some b ->
+  b = (if (count_input_cols tc DC w =? 0)%nat then true else (i mod 3 =? 2)%nat).
+Proof. exact group_flags_spec. Qed.
+
+(* a complete group has 2^k items, times 3 with a clock *)
+Theorem C05_number_of_items_of_a_group :
+  forall (G : gen) (DE : Type) (D : driver DE) (w_default : bool) (tc : testcase) 
+  (fuel n : nat) (st0 : istate) (pre : list (step DE)) (s : step DE) (mid post : list (step DE))
+  (w : list dentry) (l : N) (it' : siter) (c' : ctx),
+  steps_e G DE D w_default tc fuel n st0 = pre ++ s :: mid ++ post ->
+  refill_call (step_pre DE s) = true ->
+  Forall (fun x : step DE => refill_call (step_pre DE x) = false) mid ->
+  snext G fuel (i_iter (step_pre DE s)) (i_ctx (step_pre DE s)) =
+  NYield ctx xfail (list dentry) w l it' c' ->
+  refill_call (end_state DE (step_pre DE s) (s :: mid)) = true ->
+  length (s :: mid) = length (spec_rows tc (source_row w l)) /\
+  length (s :: mid) =
+  (2 ^ count_input_cols tc DX w * (if count_input_cols tc DC w =? 0 then 1 else 3))%nat.
+Proof. exact number_of_items_of_a_group. Qed.
+
+(* the same for the static iterator *)
+Theorem C05_static_group_is_the_expansion :
+  forall (G : gen) (tc : testcase) (fuel n : nat) (st0 : istate) (pre : list (step N)) 
+  (s : step N) (mid post : list (step N)) (w : list dentry) (l : N) (it' : siter)
+  (c' : ctx),
+  try_iter_static tc = StaticOk st0 ->
+  steps_e G N Script.static_driver true tc fuel n st0 = pre ++ s :: mid ++ post ->
+  refill_call (step_pre N s) = true ->
+  Forall (fun x : step N => refill_call (step_pre N x) = false) mid ->
+  snext G fuel (i_iter (step_pre N s)) (i_ctx (step_pre N s)) =
+  NYield ctx xfail (list dentry) w l it' c' ->
+  exists (ers : list evaluated_row) (rows rest : list dentries),
+  spec_rows tc (source_row w l) = rows ++ rest /\
+  map (fun x : step N => handed G tc fuel (step_pre N x)) (s :: mid) = map Some ers /\
+  evaluated_seq tc (i_prev (step_pre N s)) rows ers /\
+  i_log (end_state N (step_pre N s) (s :: mid)) = i_log (step_pre N s) ++ map (call_of true) ers /\
+  pending tc (end_state N (step_pre N s) (s :: mid)) = rest /\
+  (rest = [] <-> refill_call (end_state N (step_pre N s) (s :: mid)) = true) /\
+  (forall (y : step N) (post' : list (step N)),
+  post = y :: post' -> step_pre N y = end_state N (step_pre N s) (s :: mid)).
+Proof. exact static_group_is_the_expansion. Qed.
+
+
+
 Check C05_expansion.
 Print Assumptions C05_expansion.
 Print Assumptions C05_expansion_any_stack.
+Print Assumptions C05_group_is_the_expansion.
+Print Assumptions C05_calls_of_a_group.
+Print Assumptions C05_number_of_items_of_a_group.
